@@ -185,7 +185,7 @@ fn tree_mutations(t: &StructureTag, out: &mut Vec<StructureTag>) {
     }
     let mut paths = vec![]; nodes(t, &mut vec![], &mut paths);
     for path in &paths {
-        for kind in 0..9 {
+        for kind in 0..10 {
             let mut m = t.clone();
             {
                 let node = at(&mut m, path);
@@ -198,7 +198,8 @@ fn tree_mutations(t: &StructureTag, out: &mut Vec<StructureTag>) {
                     5 => if let PL::C(ts) = &mut node.payload { if !ts.is_empty() { ts.remove(0); } else { continue; } } else { continue; },
                     6 => if let PL::C(ts) = &mut node.payload { if !ts.is_empty() { ts.pop(); } else { continue; } } else { continue; },
                     7 => if let PL::C(ts) = &mut node.payload { if ts.len() > 1 { ts.swap(0, 1); } else { continue; } } else { continue; },
-                    _ => node.payload = match &node.payload { PL::P(v) => PL::P([v.clone(), vec![0xff]].concat()), PL::C(ts) => PL::C([ts.clone(), vec![p(TagClass::Universal, 5, b"")]].concat()) },
+                    8 => node.payload = match &node.payload { PL::P(v) => PL::P([v.clone(), vec![0xff]].concat()), PL::C(ts) => PL::C([ts.clone(), vec![p(TagClass::Universal, 5, b"")]].concat()) },
+                    _ => if let PL::C(ts) = &mut node.payload { ts.insert(0, p(TagClass::Universal, 4, b"")); } else { continue; },   // something in front
                 }
             }
             out.push(m);
@@ -233,6 +234,10 @@ pub fn gen_hostile(rng: &mut Rng, n: usize, out: &mut Vec<String>) {
                 lm.push(e);
             }
             for v in [0x80u8, 0x81, 0x82, 0x84, 0x88, 0x89, 0xff] { let mut e = enc.clone(); e[off + 1] = v; lm.push(e); }
+            // the same length in nine octets: led by zero (valid, non-minimal), and led by one (2^64 more than there is)
+            { let l = enc[off + 1]; if l < 0x80 { for lead in [0u8, 1] { let mut e = enc[..off + 1].to_vec(); e.push(0x89); e.push(lead); e.extend([0u8; 7]); e.push(l); e.extend(&enc[off + 2..]);
+                  if off > 0 && enc[1] < 0x80 - 8 { e[1] += 8; }   // keep a short-form outer length in step (nested levels in between are not adjusted: those variants are merely malformed)
+                  lm.push(e); } } }
             { let mut e = enc.clone(); e.truncate(off + 1); lm.push(e); }
             { let mut e = enc.clone(); e.truncate(off + 2); lm.push(e); }
         }
@@ -259,6 +264,13 @@ pub fn gen_hostile(rng: &mut Rng, n: usize, out: &mut Vec<String>) {
     // the witnesses of findings F2..F4 (also kept in corpus/C11)
     for w in ["3000", "3003020101", "300504010161 00", "300430821000", "300e0201016100a007300504017801 00"] {
         out.push(format!("frame {} -", w.replace(' ', "")));
+    }
+    // the witnesses of F38: envelope of another class (x3), something in front of the message id, a message id without content, the outer
+    // length as nine octets led by 1 (2^64 + 12) and led by 0 (12, valid), the same on an inner element; then a well-formed one behind each
+    for w in ["700c02010161070a010004000400", "b00c02010161070a010004000400", "f00c02010161070a010004000400", "300e040002010161070a010004000400", "300b020061070a010004000400",
+              "308901000000000000000c02010161070a010004000400", "308900000000000000000c02010161070a010004000400", "30140201016189010000000000000007 0a010004000400", "3014020101618900000000000000000 70a010004000400"] {
+        out.push(format!("frame {} -", w.replace(' ', "")));
+        out.push(format!("frame {}300c02010261070a010004000400 -", w.replace(' ', "")));
     }
     // nesting: 1 .. beyond the limit, and a megabyte-scale nest (stack lane)
     for d in [2usize, 50, 99, 100, 101, 102, 103, 1000, 20000] {
@@ -304,6 +316,17 @@ fn own_view(t: &StructureTag) -> Option<String> {
     Some(format!("f({},{},[{}])", id, show_tree(&kids[1]), cs.join(",")))
 }
 
+/// The envelope's shape alone: universal SEQUENCE of the message id (universal INTEGER with content), the protocol op, and then nothing,
+/// the controls ([0], constructed) or the stray [10] which the library tolerates on purpose (Active Directory's Notice of Disconnection).
+fn own_shape(t: &StructureTag) -> bool {
+    if t.class != TagClass::Universal || t.id != 16 { return false; }
+    let kids = match &t.payload { PL::C(k) => k, _ => return false };
+    if kids.len() < 2 || kids.len() > 3 { return false; }
+    match (&kids[0].payload, kids[0].class, kids[0].id) { (PL::P(v), TagClass::Universal, 2) if !v.is_empty() => {} _ => return false }
+    if kids.len() == 3 { let k = &kids[2]; if k.class != TagClass::Context { return false; } match (k.id, &k.payload) { (0, PL::C(_)) | (10, _) => {} _ => return false } }
+    true
+}
+
 pub fn run(_lane: &str, args: &[&str]) -> (String, Option<String>) {
     let stream = unhex(args[0]);
     let sizes: Vec<usize> = if args.len() < 2 || args[1] == "-" { vec![] } else { args[1].split(',').map(|x| x.parse().unwrap()).collect() };
@@ -343,6 +366,23 @@ pub fn run(_lane: &str, args: &[&str]) -> (String, Option<String>) {
         let want_tail = format!("need:{}", stream.len() - o);
         if evs != exp || tail != want_tail {
             oracle = Some(format!("stream of well-formed messages: expected {} deliveries then {}, got {} then {}", exp.len(), want_tail, evs.len(), tail));
+        }
+    }
+    // whatever is delivered is an LDAPMessage envelope (F38): walk the stream with the independent reader; the first element that is not one
+    // must not come out as a frame
+    if oracle.is_none() {
+        let (mut o, mut i) = (0usize, 0usize);
+        while o < stream.len() {
+            let mut min = true;
+            let delivered = evs.get(i).map_or(false, |e| e.starts_with("f("));
+            match ownber::read(&stream[o..], &mut min, 0) {
+                Own::Ok(t, n) => {
+                    if !own_shape(&t) { if delivered { oracle = Some(format!("F38-envelope: element {} of the stream is not an LDAPMessage envelope ({}), yet a frame was delivered for it", i, crate::lanes::ber::clip(&show_tree(&t)))); } break; }
+                    o += n; i += 1;
+                }
+                Own::Invalid => { if delivered { oracle = Some(format!("F38-envelope: element {} of the stream is not definite-length BER with lengths below 2^64, yet a frame was delivered for it", i)); } break; }
+                _ => break,
+            }
         }
     }
     // wedge: decoder waits although the announced bytes of the frame at the head of its buffer are all there
